@@ -310,7 +310,9 @@ def r3_safe_repr(ctx: Ctx, rid: str = "R3") -> None:
     for c in astq.calls(vc.node):
         if astq.callee(c) == "self.write" and c.args and ast.unparse(c.args[0]) in ("str(val)", "repr(val)"):
             gts = astq.guard_texts(vc.node, c)
-            signed_out = any((("< 0" in g) or ("'-'" in g) or ('"-"' in g)) and not pol for g, pol in gts)
+            float_path = any("isinstance(val, float)" in g and pol for g, pol in gts)
+            # for a float only the *text* tells the sign: -0.0 < 0 is false but str(-0.0) is "-0.0"
+            signed_out = any(((("< 0" in g) and not float_path) or ("'-'" in g) or ('"-"' in g) or ("copysign" in g)) and not pol for g, pol in gts)
             ctx.check(signed_out, f"visit_Const:atom:{ast.unparse(c.args[0])}", "compiler:CodeGenerator.visit_Const", f"bare {ast.unparse(c.args[0])} written without excluding a leading sign",
                       f"visit_Const writes {ast.unparse(c.args[0])} on a path where the value may be negative (guards: {gts}): the optimizer folds `-2` to the constant -2, whose bare text `-2` as the left operand of `**` means -(2 ** x) - `{{{{ (-2) ** x }}}}` gives -4 with the optimizer and 4 without", vc.loc(c))
     ctx.check(not bad, "visit_Const:float", "compiler:CodeGenerator.visit_Const", "float re-emission", "floats are re-emitted with str(): inf / nan (a folded 1e999) become the undefined names `inf` / `nan` in the generated module", vc.loc())
